@@ -402,3 +402,105 @@ fn mutate_json_once(rng: &mut Rng, v: &mut Value) -> &'static str {
     });
     tag
 }
+
+/// Find a string-set position (`[string]()`, also below `[]`, `?`, maps and struct members) in `j : t` and give one of its
+/// members the value `junk` (a member is added when the set is empty).  False when `t` has no reachable set position.
+pub fn poison_set(idl: &Idl, t: &Ty, j: &mut Value, junk: &Value, fuel: usize) -> bool {
+    if fuel == 0 {
+        return false;
+    }
+    match t {
+        Ty::Ref(n) => match idl.typedef(n) {
+            Some(td) => poison_set(idl, &td.def.clone(), j, junk, fuel - 1),
+            None => false,
+        },
+        Ty::Map(_) if is_set(t) => {
+            if let Value::Object(o) = j {
+                let k = o.keys().next().cloned().unwrap_or_else(|| "k".to_string());
+                o.insert(k, junk.clone());
+                true
+            } else {
+                false
+            }
+        }
+        Ty::Map(i) => match j {
+            Value::Object(o) => {
+                if o.is_empty() {
+                    // an entry whose value is a poisoned instance of the element type
+                    let mut v = skeleton(idl, i, fuel - 1);
+                    if poison_set(idl, i, &mut v, junk, fuel - 1) {
+                        o.insert("k".into(), v);
+                        return true;
+                    }
+                    return false;
+                }
+                o.values_mut().any(|x| poison_set(idl, i, x, junk, fuel - 1))
+            }
+            _ => false,
+        },
+        Ty::Arr(i) => match j {
+            Value::Array(a) => {
+                if a.is_empty() {
+                    let mut v = skeleton(idl, i, fuel - 1);
+                    if poison_set(idl, i, &mut v, junk, fuel - 1) {
+                        a.push(v);
+                        return true;
+                    }
+                    return false;
+                }
+                a.iter_mut().any(|x| poison_set(idl, i, x, junk, fuel - 1))
+            }
+            _ => false,
+        },
+        Ty::Opt(i) => {
+            if j.is_null() {
+                let mut v = skeleton(idl, i, fuel - 1);
+                if poison_set(idl, i, &mut v, junk, fuel - 1) {
+                    *j = v;
+                    return true;
+                }
+                return false;
+            }
+            poison_set(idl, i, j, junk, fuel - 1)
+        }
+        Ty::Struct(fs) => match j {
+            Value::Object(o) => {
+                for (f, ft) in fs {
+                    let mut cur = o.get(f).cloned().unwrap_or(Value::Null);
+                    if poison_set(idl, ft, &mut cur, junk, fuel - 1) {
+                        o.insert(f.clone(), cur);
+                        return true;
+                    }
+                }
+                false
+            }
+            _ => false,
+        },
+        _ => false,
+    }
+}
+
+/// a minimal well-shaped JSON value of the type (raw material for `poison_set`)
+fn skeleton(idl: &Idl, t: &Ty, fuel: usize) -> Value {
+    if fuel == 0 {
+        return Value::Null;
+    }
+    match t {
+        Ty::Bool => Value::Bool(false),
+        Ty::Int => Value::from(0),
+        Ty::Float => Value::from(0.5),
+        Ty::Str => Value::from(""),
+        Ty::Object => Value::from(0),
+        Ty::Ref(n) => idl.typedef(n).map(|td| skeleton(idl, &td.def, fuel - 1)).unwrap_or(Value::Null),
+        Ty::Struct(fs) => Value::Object(fs.iter().map(|(f, ft)| (f.clone(), skeleton(idl, ft, fuel - 1))).collect()),
+        Ty::Enum(vs) => vs.first().map(|v| Value::from(v.clone())).unwrap_or(Value::Null),
+        Ty::Arr(_) => Value::Array(vec![]),
+        Ty::Map(_) => Value::Object(serde_json::Map::new()),
+        Ty::Opt(_) => Value::Null,
+    }
+}
+
+/// member values a string set must refuse (`[]` and objects are what `struct Empty {}` accepts)
+pub fn set_junk() -> Vec<Value> {
+    vec![Value::from(1), Value::from("v"), Value::Bool(true), Value::Null, Value::from(1.5), Value::Array(vec![Value::from(1)])]
+}
